@@ -149,7 +149,7 @@ func runC08(args []string) int {
 	rep := NewReport("C08")
 	rep.Rule = "genuine Groth16 and PLONK proofs of circuits with 0, 1 and 2 commitments are edited structurally (every length 0..len+2 of every variable-length part, rotations, resized public witness) and at the byte level (every truncation length, byte flips at every structural offset and random offsets, extensions, random strings) and given to ReadFrom / UnmarshalBinary / Verify under recover; observed class accept / error / panic; non-trivial = an edit that changes a length or a byte; distinct = distinct (backend, curve, circuit, edit)"
 	curves := []ecc.ID{ecc.BN254, ecc.BLS12_381}
-	if o.Thorough() {
+	if o.AllCurves() {
 		curves = []ecc.ID{ecc.BN254, ecc.BLS12_377, ecc.BLS12_381, ecc.BW6_761, ecc.BLS24_315, ecc.BLS24_317, ecc.BW6_633}
 	}
 	var g16cases, plonkcases, wbcases []string
